@@ -225,7 +225,31 @@ var sparseLimbs = []uint64{0, 0, 1, 1, ^uint64(0), 1 << 63, 1 << 32, 1<<32 - 1, 
 // high limbs random" are common), class "mixed" mixes those with uniform limbs, class "fraction" gives values next to j*M/m. Values whose low (or any) word looks like a
 // small constant while the whole value does not are what truncating conversions and partial comparisons confuse.
 func Limbs(t *rapid.T, label string) (*big.Int, string) {
-	cls := Pick(t, label+".lclass", "sparse", "sparse", "mixed", "fraction", "sparse", "mixed", "gcd-slow")
+	cls := Pick(t, label+".lclass", "sparse", "sparse", "mixed", "fraction", "sparse", "mixed", "gcd-slow", "near-const", "near-const")
+	if cls == "near-const" {
+		// a constant the word-level code compares against or special-cases (1, the Montgomery forms of 1 and of R for p and n,
+		// p, n, p-1, n-1, 0) with exactly ONE 64-bit word replaced (sparse alphabet, uniform, or one bit flipped): equal to the
+		// constant in three words out of four — what a comparison loop that stops one word early, or starts one word late, confuses
+		c := []*big.Int{big.NewInt(1), new(big.Int).Mod(Two256, P), new(big.Int).Mod(Two256, P), new(big.Int).Mod(Two256, P), new(big.Int).Mod(Two256, N),
+			new(big.Int).Mod(new(big.Int).Mul(Two256, Two256), P), new(big.Int).Mod(new(big.Int).Mul(Two256, Two256), N),
+			P, N, new(big.Int).Sub(P, big.NewInt(1)), new(big.Int).Sub(N, big.NewInt(1)), new(big.Int)}[Uniform(t, label+".nc", 0, 11)]
+		w := uint(Uniform(t, label+".ncw", 0, 3))
+		r := Rand(t, label+".ncseed")
+		old := new(big.Int).Rsh(c, 64*w).Uint64()
+		var l uint64
+		switch r.Intn(3) {
+		case 0:
+			l = sparseLimbs[r.Intn(len(sparseLimbs))]
+		case 1:
+			l = r.Uint64()
+		default:
+			l = old ^ 1<<uint(r.Intn(64))
+		}
+		v := new(big.Int).Set(c)
+		v.Sub(v, new(big.Int).Lsh(new(big.Int).SetUint64(old), 64*w))
+		v.Add(v, new(big.Int).Lsh(new(big.Int).SetUint64(l), 64*w))
+		return v, "limbs-near-const"
+	}
 	if cls == "gcd-slow" {
 		// residues on which a Euclid-style (divstep / safegcd) inversion is unusually slow to finish (vectors/divstep_slow.json,
 		// found by tools/divstepsearch: 603..615 divsteps where uniformly random values need 531 +- 10): nothing in their limbs is
